@@ -196,7 +196,8 @@ class FilesWorld:
                 faults.append(fd)
             elif swarm["faults"] and core.stream(seed, "peer:%d" % len(ops)).random() < 0.12:
                 # a concurrent peer dumps into the same target just before the k-th os-level call of this operation
-                faults.append({"site": "sys", "at": core.stream(seed, "peer-at:%d" % len(ops)).randint(1, 12), "kind": "peer_dump"})
+                faults.append({"site": "sys", "at": core.stream(seed, "peer-at:%d" % len(ops)).randint(1, 12),
+                               "kind": core.stream(seed, "peer-kind:%d" % len(ops)).choice(["peer_dump", "peer_call", "peer_call"])})
             if swarm["faults"] and last_dump is not None and ro.random() < 0.35 and ops[-1].get("faults"):
                 # heal: repeat the previous (faulted) dump without faults
                 again = json.loads(json.dumps(ops[-1]))
@@ -256,7 +257,7 @@ class FilesWorld:
         entries = ["api_file", "api_dump", "cli_file", "cli_dir"]
         for e in entries:
             for env in [None] + ENV_KINDS:
-                for f in [None] + IO_FAULTS + ["listdir:perm"] + (["sys:%d" % n for n in range(1, 11)] if env in (None, "rm_target") else []):
+                for f in [None] + IO_FAULTS + ["listdir:perm"] + (["sys:%d" % n for n in range(1, 11)] + ["syscall:%d" % n for n in range(1, 11)] if env in (None, "rm_target") else []):
                     if f == "listdir:perm" and e != "cli_dir":
                         continue
                     if f and f.startswith("input_open") and e == "api_dump":
@@ -274,6 +275,8 @@ class FilesWorld:
                         faults = [{"site": "listdir", "perm_seed": rw.randrange(10 ** 6)}]
                     elif f and f.startswith("sys:"):
                         faults = [{"site": "sys", "at": int(f[4:]), "kind": "peer_dump"}]
+                    elif f and f.startswith("syscall:"):
+                        faults = [{"site": "sys", "at": int(f[8:]), "kind": "peer_call"}]
                     elif f:
                         site, kind = f.split(":")
                         faults = [{"site": site, "kind": kind}]
@@ -460,6 +463,21 @@ class FilesWorld:
         for f_ in plan.faults:
             if f_["site"] == "sys":
                 f_["target"] = self._abs_real(root, op.get("dump_path") or op.get("target") or "schemas")
+
+        def peer_call(target):
+            b4 = _snapshot(root)
+            pdir = os.path.join(root, "peer_in")
+            os.makedirs(pdir, exist_ok=True)
+            ppath = os.path.join(pdir, "peer_tbl.sql")
+            with open(ppath, "w") as fh_:
+                fh_.write("create table peer_tbl (id int primary key, note varchar(20));\n")
+            try:
+                self.parse_from_file(ppath, dump=True, dump_path=target)
+                stats["peer_calls_ok"] += 1
+            except Exception:  # noqa   (the target is blocked by an environment fault, ...): the peer's own business
+                stats["peer_calls_failed"] += 1
+            return sorted(_changes(b4, _snapshot(root)))
+        plan.peer_call = peer_call
         viol = []
         outcome = None
         stdout = ""
@@ -587,7 +605,7 @@ class FilesWorld:
         fired = list(plan.fired)
         stats["sys_calls_for_library"] += plan.sys_n
         # a permuted listing and a concurrent peer dumping into the same target are not error conditions: no relaxation
-        io_fault_fired = [f for f in fired if f["kind"] not in ("permuted", "peer_dump")]
+        io_fault_fired = [f for f in fired if f["kind"] not in ("permuted", "peer_dump", "peer_call")]
         if fired:
             stats["faults_fired"] += len(fired)
             for f in fired:
@@ -599,6 +617,10 @@ class FilesWorld:
                 # what the peer itself created is not this operation's doing
                 for pth in f_.get("created", ()):
                     ch.pop(os.path.relpath(pth.rstrip("/"), root) + ("/" if pth.endswith("/") else ""), None)
+            elif f_["kind"] == "peer_call":
+                for rel in f_.get("changed", ()):
+                    if rel.endswith("peer_tbl_schema.json") or rel.startswith("peer_in/") or rel.endswith("/"):
+                        ch.pop(rel, None)
         log.add("op", i=i, op=k, outcome=outcome[0], fired=[(f["site"], f["kind"]) for f in fired],
                 changed=sorted(ch.items()))
 
